@@ -40,8 +40,8 @@ def gen_jobs(ctx):
                                        ops=["BreakFile", "DeleteRule", "ModifyLabels", "RenameFile", "DeleteFile", "WhitespaceEdit"]),
          120 if not th else 2500, dict(workers=2 if not th else 4)),
         # (7) exhaustive: the base branch inserts rules (top / end of a file) and is merged into the branch
-        ("c03_gen_merge.cfg", gh.cfg("EmitCase", npaths=1 if not th else 2, names=["n1", "n2"], bodies=["v1"], labs=["l1", "l2"], maxrules=2,
-                                      maxfork=2, commits=2, baseadv=1, merges=1,
+        ("c03_gen_merge.cfg", gh.cfg("EmitCase", npaths=1, names=["n1", "n2"], bodies=["v1"], labs=["l1", "l2"], maxrules=2,
+                                      maxfork=2, commits=2, baseadv=1 if not th else 2, merges=1,
                                       ops=["ModifyLabels", "DeleteRule", "AddRule", "RenameFile", "DeleteFile", "BaseAdvance", "MergeBase"]),
          150 if not th else 3000, dict(workers=2 if not th else 6)),
         # (4) simulation over the wide vocabulary: random prefixes, every successor of every visited history
@@ -86,16 +86,14 @@ def model_and_cases(ctx, mode):
     """Runs the GEN and MC TLC jobs side by side; returns (cases, gen stats, mc results)."""
     ctx._spec_copy()
     gj, mj = gen_jobs(ctx), mc_jobs(ctx, mode)
-    jobs = [(lambda j=j: gh.gen(ctx, j[0], j[1], **j[3])) for j in gj]
+    jobs = [(lambda j=j: gh.gen(ctx, j[0], j[1], budget=j[2], **j[3])) for j in gj]
     jobs += [(lambda j=j: ctx.tlc("GitHistory", j[0], files={j[0]: j[1]}, allow_violation=True, timeout=3000,
-                                  workers=j[2], heap="4g")) for j in mj]
-    res = gh.run_parallel(jobs, width=len(jobs))
+                                  workers=j[2], heap="3g" if ctx.thorough else "1g")) for j in mj]
+    res = gh.run_parallel(jobs, width=7 if not ctx.thorough else 5)
     parts, stats = [], []
     for j, (cs, r) in zip(gj, res[:len(gj)]):
-        d = gh.dedupe(cs)
-        pick = gh.stratify(d, j[2], ctx.seed)
-        parts.extend(pick)
-        stats.append({"cfg": j[0], "emitted": len(cs), "distinct": len(d), "replayed": len(pick),
+        parts.extend(cs)   # already de-duplicated and sub-sampled inside gh.gen (memory)
+        stats.append({"cfg": j[0], "emitted": r.get("gen_emitted"), "distinct": r.get("gen_distinct"), "replayed": len(cs),
                       "states": r["distinct"], "generated": r["generated"]})
     return gh.dedupe(parts), stats, res[len(gj):]
 
